@@ -53,7 +53,10 @@ ASSUMPTIONS = [
     "StmF = StrF (pdfminer documents this limit by raising PDFEncryptionError otherwise)",
     "wrong passwords are rejected up to collisions of the validation hash (cryptographic assumption; the Lean "
     "statement C10_rejects_partial carries it as an explicit hypothesis)",
-    "MD5/SHA-2/AES are the functions hashlib/cryptography compute; AES-CBC decrypt inverts encrypt for equal key/IV",
+    "MD5/SHA-2/AES are the functions hashlib/cryptography compute; AES-CBC decrypt inverts encrypt for equal key/IV; "
+    "digests have 16 / 32 / 48 / 64 bytes (PrimsOK.md5_len, ShaLen - checked on every value handed to the driver)",
+    "the /Length entry of a V >= 4 Encrypt dictionary is not the key length (ISO 32000-1 Table 20: only if V is 2 or 3): "
+    "such documents are generated with /Length absent, 40, 64, 128 or 256 and must open like any other",
 ]
 STATEMENT_STATUS: Dict[str, str] = {
     "C10_main": "proved: for every configuration (V1/V2 RC4 any length, V4 RC4/AESV2/Identity, V5 R5/R6 AESV3; any P, ID, "
@@ -93,6 +96,32 @@ STATEMENT_STATUS: Dict[str, str] = {
     "saslprep_model_eq_spec": "proved: control flow of _saslprep.saslprep = RFC 4013 / RFC 3454 section 6 for every table content; "
                               "sasl_tables_are_rfc4013 pins the regenerated table list; trusted: stringprep table contents, NFKC 3.2",
     "C10_aes_padding_cex": "proved counter-example for the pinned (pre-fix) AES decryption",
+    "C10_either_password / C10_open_owner / C10_main_owner": "proved (round 6): for every configuration the owner password "
+        "opens the document too and yields the very same handler (class, file key, P, crypt-filter map) as the user password, "
+        "hence the same permissions and the same round trip; assumptions: those of C10_main plus Config.ownerValid (R2-R4: "
+        "clause H1 - the code tries the user path first; R5/R6: none). C10_open_of_authenticate: handler selection, init_params "
+        "and revision check succeed for every well-formed configuration whatever the password",
+    "passwordHash_length / salts8_of_sha / C10_v5_valid_of_sha": "proved: _password_hash returns exactly 32 bytes for every "
+        "revision/password/salt/vector from the SHA-2 digest lengths (ShaLen) - Salts8.hash_len is no longer a hypothesis; the "
+        "digest lengths are checked on every primitive value handed to the driver",
+    "unpad_total / unpad_prefix / unpad_unique": "proved: unpad_aes (bounds regenerated from the source) on every input - "
+        "well-formed padding (n bytes of value n, 1..16, after any data) is removed, everything else (empty, last byte 0 or > 16, "
+        "too short, differing byte) is returned unchanged; exclusive and exhaustive; tied by the driver op `unpad`",
+    "objKeyRc4_length / objKeyAes_length / objKey_low_order_bytes": "proved: per-object keys have min(n+5,16) resp. min(n+9,16) "
+        "bytes and depend only on objid mod 2^24 and genno mod 2^16; tied by the driver op `objkey` (key observed at the cipher)",
+    "openHandler_method / decrypt_eq_table / selectMethod_is_spec": "proved: the crypt-filter decision of decrypt as a table "
+        "(class x EncryptMetadata x Metadata stream x StrF's method) - exhaustive: every handler _initialize_password returns has "
+        "class 1/4/5 and StrF names a method get_cfm of that class can return or Identity (no KeyError, the `none` row is "
+        "unreachable); the table equals ISO 32000-1 7.6.5 (specSelect) for strings, streams and Metadata streams; tied by the "
+        "driver ops `select` (model vs handler.decrypt with recording ciphers) and `spec.select` (Lean spec vs Python twin)",
+    "get_cfm_is_standard / crypt_filter_constants": "proved over tables regenerated from pdfdocument.py on every run (get_cfm "
+        "if/elif chains of V4 and V5, the built-in Identity filter, forced lengths 128/256, the Metadata bypass type, "
+        "unpad bounds): an edit of the source breaks these proofs",
+    "C10_open_error_of_authenticate": "proved: an error of authenticate is the error of the whole _initialize_password for "
+        "every well-formed configuration",
+    "C10_wrong_password_rejected_partial": "partial: document-level rejection for every configuration; the assumptions are "
+        "exactly Config.wrongPassword = H1 + H2 (R2-R4) resp. the two no-collision clauses (R5/R6)",
+    "C10_file_key_length": "proved: 5 bytes for R2, min(Length/8, 16) for R3/R4",
     "MD5, SHA-2, AES": "abstract parameters (Prims); not modelled",
 }
 
@@ -318,8 +347,16 @@ def gen_cfg(rng, force: Optional[str] = None) -> R.Cfg:
         owner = user
     if rng.random() < 0.3:
         user = ""
-    return R.Cfg(V, R_, length, method, P, id0, user, owner, em, have_id, length_key,
-                 rng.choice(["StdCF", "StdCF", "MyFilter"]), rng.random() < 0.15 and P < 0)
+    cfg = R.Cfg(V, R_, length, method, P, id0, user, owner, em, have_id, length_key,
+                rng.choice(["StdCF", "StdCF", "MyFilter"]), rng.random() < 0.15 and P < 0)
+    if V >= 4 and rng.random() < 0.35:
+        # round 6: the /Length entry of a V >= 4 Encrypt dictionary is not the key length (Table 20: "only if V is 2
+        # or 3"); absent, or any multiple of 8 - the file key stays 16 / 32 bytes
+        if rng.random() < 0.3:
+            cfg.length_key = False
+        else:
+            cfg.dict_length = rng.choice([40, 64, 128, 256])
+    return cfg
 
 
 def gen_string(rng) -> bytes:
@@ -970,6 +1007,15 @@ def replay(ctx: C.Ctx, doc: Dict[str, Any], from_corpus: bool = False) -> None:
                       "corpus" if from_corpus else "replay")
     elif "sample" in inp:
         run_samples(ctx)
+    elif "unpad" in inp:
+        from harness import c10_keys
+        c10_keys.replay_unpad(ctx, bytes.fromhex(inp["unpad"]))
+    elif "objkey" in inp:
+        from harness import c10_keys
+        c10_keys.replay_objkey(ctx, inp["objkey"])
+    elif "kdf" in inp:
+        from harness import c10_keys
+        c10_keys.replay_kdf(ctx, inp)
 
 
 def model_check(ctx: C.Ctx, cases: List[Case], with_rc4: bool = True) -> None:
